@@ -84,14 +84,20 @@ func reorgPathFn(c *Ctx) *ir.Func {
 	return nil
 }
 
-// proofUpdaterFn: the package function taking (*V2Transaction, func(*StateElement), uint64).
+// proofUpdaterFn: the package function taking (*V2Transaction, <element updater>, uint64 accumulator size).
 func proofUpdaterFn(c *Ctx) *ir.Func {
 	for _, f := range c.P.PkgFuncs("chain") {
 		if f.Obj.Type().(*types.Signature).Recv() != nil || f.Type.Params.NumFields() < 2 {
 			continue
 		}
 		t0 := f.Info().TypeOf(f.Type.Params.List[0].Type)
-		if pt, ok := t0.(*types.Pointer); ok && ir.IsNamed(pt.Elem(), ir.PkgPath("types"), "V2Transaction") {
+		hasSize := false
+		for _, fld := range f.Type.Params.List {
+			if b, ok := f.Info().TypeOf(fld.Type).Underlying().(*types.Basic); ok && b.Kind() == types.Uint64 {
+				hasSize = true
+			}
+		}
+		if pt, ok := t0.(*types.Pointer); ok && hasSize && ir.IsNamed(pt.Elem(), ir.PkgPath("types"), "V2Transaction") {
 			return f
 		}
 	}
@@ -101,7 +107,7 @@ func proofUpdaterFn(c *Ctx) *ir.Func {
 
 func c13r1(c *Ctx) {
 	r := getChainRoles(c.P)
-	f := rebaseFn(c)
+	f := r.view(rebaseFn(c))
 	rp := reorgPathFn(c)
 	pu := proofUpdaterFn(c)
 	g := f.Graph()
@@ -158,7 +164,7 @@ func c13r1(c *Ctx) {
 }
 
 func c13r2(c *Ctx) {
-	f := rebaseFn(c)
+	f := getChainRoles(c.P).view(rebaseFn(c))
 	pu := proofUpdaterFn(c)
 	deepCopy := c.P.Method("types", "V2Transaction", "DeepCopy")
 	var param types.Object
@@ -250,7 +256,7 @@ func supplementDerefs(c *Ctx, f *ir.Func) (vars map[types.Object]bool, derefs []
 
 func c13r3(c *Ctx) {
 	r := getChainRoles(c.P)
-	for _, f := range r.methods {
+	for _, f := range r.methodsV {
 		vars, derefs := supplementDerefs(c, f)
 		if len(derefs) == 0 {
 			continue
@@ -368,8 +374,8 @@ func c13r4(c *Ctx) {
 	r := getChainRoles(c.P)
 	rp := reorgPathFn(c)
 	n := 0
-	for _, f := range r.methods {
-		if f == r.reorgTo {
+	for _, f := range r.methodsV {
+		if f.Base == r.reorgTo {
 			continue
 		}
 		for _, call := range f.CallsTo(true, rp.Obj) {
